@@ -345,6 +345,8 @@ def run(report, prog, tier):
 S = 'nfc.tag.tt3_sony'
 N = 'nfc.tag.tt2_nxp'
 MUTANTS = [
+    ('authenticate-normalises-password', 'nfc.tag', "            self._authenticated = self._authenticate(password)", "            password = password.strip()\n            self._authenticated = self._authenticate(password)", 'C20-R3'),
+    ('protect-truncates-password', 'nfc.tag', "            status = self._protect(password, read_protect, protect_from)", "            status = self._protect(password[:16], read_protect, protect_from)", 'C20-R3'),
     ('tt3-read-accepts-fewer-blocks', 'nfc.tag.tt3', "        if len(data) != 1 + len(block_list) * 16:", "        if len(data) % 16 != 1:", 'C20-R5'),
     ('mac-check-negated', S, """        if mac != self.generate_mac(data, self._sk, self._iv):
             log.warning("mac verification failed")
